@@ -430,6 +430,18 @@ class ElemSources:
             return self.sources(e.args[0], depth - 1)
         if isinstance(e, ast.BinOp) and isinstance(e.op, ast.Add):
             return self.sources(e.left, depth - 1) + self.sources(e.right, depth - 1)
+        if isinstance(e, ast.Call) and isinstance(e.func, ast.Name) and e.func.id == "filter" and len(e.args) == 2 and not e.keywords:
+            # filter(F, XS) == (x for x in XS if F(x));  filter(None, XS) == (x for x in XS if x)
+            pred, xs = e.args
+            var = "elem__f"
+            if isinstance(pred, ast.Constant) and pred.value is None:
+                test: ast.expr = ast.Name(id=var, ctx=ast.Load())
+            elif isinstance(pred, ast.Lambda) and len(pred.args.args) == 1:
+                test = subst(pred.body, {pred.args.args[0].arg: ast.Name(id=var, ctx=ast.Load())})
+            else:
+                test = expand_predicate(self.ctx, self.fn, ast.Call(func=pred, args=[ast.Name(id=var, ctx=ast.Load())], keywords=[]))
+            here = self._norm(cond_facts(test, True), var)
+            return [(leaf, f | here) for leaf, f in self.sources(xs, depth - 1)]
         if isinstance(e, (ast.ListComp, ast.GeneratorExp, ast.SetComp)):
             if len(e.generators) == 1 and isinstance(e.generators[0].target, ast.Name):
                 g = e.generators[0]
